@@ -10,6 +10,7 @@ import (
 	"io"
 	"io/fs"
 	"os"
+	"strconv"
 	"time"
 
 	"github.com/gokrazy/rsync"
@@ -77,6 +78,54 @@ func SenderRun(seed int32, req []byte, target []byte) (out []byte, err error) {
 	}
 	err = sender.VerifSendOne(st, &memSource{data: target}, "f", int64(len(target)))
 	return buf.Bytes(), err
+}
+
+type memSources struct{ files map[string][]byte }
+
+func (s *memSources) FS() fs.FS { return nil }
+func (s *memSources) Open(name string) (sender.File, error) {
+	d, ok := s.files[name]
+	if !ok {
+		return nil, &fs.PathError{Op: "open", Path: name, Err: fs.ErrNotExist}
+	}
+	return &memFile{Reader: bytes.NewReader(d), info: memInfo{name: name, size: int64(len(d))}}, nil
+}
+func (s *memSources) Readlink(name string) (string, error) { return "", fs.ErrInvalid }
+func (s *memSources) Close() error                         { return nil }
+
+// SenderSession feeds req to the real sender.SendFiles for a file list with
+// the given file contents (names f0, f1, ...), optionally in dry-run mode,
+// and returns everything the sender wrote and how much of req it consumed.
+func SenderSession(seed int32, dryRun bool, files [][]byte, req []byte) (out []byte, consumed int, err error) {
+	var buf bytes.Buffer
+	osenv := &rsyncos.Env{Stdout: io.Discard, Stderr: io.Discard}
+	args := []string{"--server", "--sender", "-r"}
+	if dryRun {
+		args = append(args, "-n")
+	}
+	opts, _, err := ParseOpts(append(args, ".", "x"))
+	if err != nil {
+		return nil, 0, err
+	}
+	rd := bytes.NewReader(req)
+	st := &sender.Transfer{
+		Logger:   log.New(io.Discard),
+		Opts:     opts,
+		Env:      osenv,
+		Progress: progress.NewPrinter(io.Discard, time.Now),
+		Conn:     &rsyncwire.Conn{Reader: rd, Writer: &buf},
+		Seed:     seed,
+	}
+	src := &memSources{files: map[string][]byte{}}
+	names := make([]string, len(files))
+	sizes := make([]int64, len(files))
+	for i, d := range files {
+		names[i] = "f" + strconv.Itoa(i)
+		sizes[i] = int64(len(d))
+		src.files[names[i]] = d
+	}
+	err = sender.VerifSendSession(st, src, names, sizes)
+	return buf.Bytes(), len(req) - rd.Len(), err
 }
 
 // ReceiverOpts selects the receiver behaviour relevant to recvFile1.
